@@ -141,8 +141,6 @@ func escapeStringLiteral(s string) string {
 			b.WriteString(`\n`)
 		case '\r':
 			b.WriteString(`\r`)
-		case '\x1a': // Ctrl-Z (EOF on Windows)
-			b.WriteString(`\Z`)
 		default:
 			b.WriteRune(r)
 		}
